@@ -6,8 +6,182 @@ import Compress.XFlate.Index
 namespace Compress.Proofs.IndexSearch
 open Compress.XFlate
 
+/-- The raw offset at index `i` (with the Go-model default for out of range). -/
+def rawAt (l : List Record) (i : Nat) : Int := (l[i]?.getD Record.zero).raw
+
+theorem rawAt_cons_zero (a : Record) (rs : List Record) : rawAt (a :: rs) 0 = a.raw := by
+  simp [rawAt]
+
+theorem rawAt_cons_succ (a : Record) (rs : List Record) (i : Nat) :
+    rawAt (a :: rs) (i + 1) = rawAt rs i := by
+  simp [rawAt]
+
+theorem rawAt_mem (l : List Record) (i : Nat) (hi : i < l.length) :
+    ∃ r, r ∈ l ∧ rawAt l i = r.raw := by
+  refine ⟨l[i], List.getElem_mem hi, ?_⟩
+  simp [rawAt, hi]
+
+theorem sorted_tail (a : Record) (rs : List Record) (h : rawSorted (a :: rs) = true) :
+    rawSorted rs = true := by
+  cases rs with
+  | nil => rfl
+  | cons b rs =>
+    simp [rawSorted] at h
+    exact h.2
+
+theorem sorted_head_le : ∀ (rs : List Record) (a : Record), rawSorted (a :: rs) = true →
+    ∀ r, r ∈ rs → a.raw ≤ r.raw := by
+  intro rs
+  induction rs with
+  | nil => intro a _ r hr; cases hr
+  | cons b rs ih =>
+    intro a h r hr
+    simp [rawSorted] at h
+    obtain ⟨h1, h2⟩ := h
+    rcases List.mem_cons.mp hr with hr | hr
+    · subst hr; exact h1
+    · have := ih b h2 r hr
+      omega
+
+theorem spec_char (p : Int) : ∀ (l : List Record), rawSorted l = true →
+    (∀ i, i < searchSpec l p → rawAt l i ≤ p) ∧
+    (∀ i, searchSpec l p ≤ i → i < l.length → p < rawAt l i) := by
+  intro l
+  induction l with
+  | nil =>
+    intro _
+    refine ⟨?_, ?_⟩
+    · intro i hi; simp [searchSpec] at hi
+    · intro i _ hi; simp at hi
+  | cons a rs ih =>
+    intro h
+    have ht := sorted_tail a rs h
+    have hh := sorted_head_le rs a h
+    obtain ⟨ih1, ih2⟩ := ih ht
+    by_cases hap : a.raw ≤ p
+    · have hk : searchSpec (a :: rs) p = searchSpec rs p + 1 := by
+        simp [searchSpec, hap]
+      rw [hk]
+      refine ⟨?_, ?_⟩
+      · intro i hi
+        cases i with
+        | zero => rw [rawAt_cons_zero]; exact hap
+        | succ i => rw [rawAt_cons_succ]; exact ih1 i (by omega)
+      · intro i hi hlen
+        cases i with
+        | zero => omega
+        | succ i =>
+          rw [rawAt_cons_succ]
+          exact ih2 i (by omega) (by simpa using hlen)
+    · have hall : ∀ r, r ∈ rs → p < r.raw := by
+        intro r hr
+        have := hh r hr
+        omega
+      have hk : searchSpec (a :: rs) p = 0 := by
+        simp only [searchSpec, List.length_eq_zero_iff, List.filter_eq_nil_iff]
+        intro r hr
+        rcases List.mem_cons.mp hr with hr | hr
+        · subst hr; simpa using hap
+        · have := hall r hr
+          simp only [decide_eq_true_eq]; omega
+      rw [hk]
+      refine ⟨?_, ?_⟩
+      · intro i hi; omega
+      · intro i _ hlen
+        cases i with
+        | zero => rw [rawAt_cons_zero]; omega
+        | succ i =>
+          rw [rawAt_cons_succ]
+          obtain ⟨r, hr, he⟩ := rawAt_mem rs i (by simpa using hlen)
+          rw [he]; exact hall r hr
+
+theorem loop_correct (l : List Record) (p : Int) (k : Nat) (hk : k ≤ l.length)
+    (hlo : ∀ i, i < k → rawAt l i ≤ p)
+    (hhi : ∀ i, k ≤ i → i < l.length → p < rawAt l i) :
+    ∀ (fuel : Nat) (imin imax : Int), 0 ≤ imin → imax < (l.length : Int) →
+      (k : Int) - 1 ≤ imax → (imin ≤ (k : Int) - 1 ∨ k = 0) →
+      imax - imin + 1 < (fuel : Int) →
+      searchLoop l.toArray p fuel imin imax = (k : Int) - 1 := by
+  intro fuel
+  induction fuel with
+  | zero =>
+    intro imin imax h0 h1 h2 h3 h4
+    simp only [searchLoop]
+    omega
+  | succ fuel ih =>
+    intro imin imax h0 h1 h2 h3 h4
+    simp only [searchLoop]
+    by_cases hlt : imax < imin
+    · rw [if_pos hlt]; omega
+    · rw [if_neg hlt]
+      have hmid0 : imin ≤ (imin + imax) / 2 := by omega
+      have hmid1 : (imin + imax) / 2 ≤ imax := by omega
+      generalize hm : (imin + imax) / 2 = imid at *
+      have hmn : ((imid.toNat : Nat) : Int) = imid := by omega
+      generalize hmm : imid.toNat = m at *
+      have hml : m < l.length := by omega
+      have e1 : (l.toArray[m]?.getD Record.zero).raw = rawAt l m := by
+        simp [rawAt]
+      have e2 : (l.toArray[m+1]?.getD Record.zero).raw = rawAt l (m+1) := by
+        simp [rawAt]
+      rw [e1, e2]
+      simp only [List.size_toArray]
+      by_cases hg : rawAt l m ≤ p
+      · have hmk : m < k := by
+          by_cases hc : m < k
+          · exact hc
+          · have := hhi m (by omega) hml; omega
+        by_cases hn : (m + 1 ≥ l.length ∨ p < rawAt l (m+1))
+        · have hcond : (decide (p ≥ rawAt l m) &&
+              (decide (m + 1 ≥ l.length) || decide (p < rawAt l (m+1)))) = true := by
+            simp only [Bool.and_eq_true, Bool.or_eq_true, decide_eq_true_eq]
+            exact ⟨hg, hn⟩
+          rw [if_pos hcond]
+          have : ¬ (m + 1 < k) := by
+            intro hc
+            have := hlo (m+1) hc
+            rcases hn with hn | hn <;> omega
+          omega
+        · have hcond : ¬ (decide (p ≥ rawAt l m) &&
+              (decide (m + 1 ≥ l.length) || decide (p < rawAt l (m+1)))) = true := by
+            simp only [Bool.and_eq_true, Bool.or_eq_true, decide_eq_true_eq]
+            intro hc; exact hn hc.2
+          rw [if_neg hcond]
+          have hg' : p ≥ rawAt l m := hg
+          rw [if_pos hg']
+          have hm1k : m + 1 < k := by
+            by_cases hc : m + 1 < k
+            · exact hc
+            · exfalso; apply hn
+              by_cases hc2 : m + 1 < l.length
+              · right; exact hhi (m+1) (by omega) hc2
+              · left; omega
+          exact ih (imid + 1) imax (by omega) h1 h2 (by omega) (by omega)
+      · have hcond : ¬ (decide (p ≥ rawAt l m) &&
+            (decide (m + 1 ≥ l.length) || decide (p < rawAt l (m+1)))) = true := by
+          simp only [Bool.and_eq_true, Bool.or_eq_true, decide_eq_true_eq]
+          intro hc; exact hg hc.1
+        rw [if_neg hcond]
+        have hg' : ¬ (p ≥ rawAt l m) := hg
+        rw [if_neg hg']
+        have hkm : k ≤ m := by
+          by_cases hc : k ≤ m
+          · exact hc
+          · have := hlo m (by omega); omega
+        have h3' : imin ≤ (k : Int) - 1 ∨ k = 0 := h3
+        exact ih imin (imid - 1) h0 (by omega) (by omega) h3'
+          (by omega)
+
 theorem search_eq_spec (recs : List Record) (h : rawSorted recs = true) (p : Int) :
     search recs p = searchSpec recs p := by
-  sorry
+  obtain ⟨h1, h2⟩ := spec_char p recs h
+  have hk : searchSpec recs p ≤ recs.length := by
+    unfold searchSpec; exact List.length_filter_le _ _
+  have := loop_correct recs p (searchSpec recs p) hk h1 h2 (recs.length + 1) 0
+    ((recs.length : Int) - 1) (by omega) (by omega) (by omega) (by omega)
+    (by omega)
+  unfold search
+  rw [this]
+  omega
 
 end Compress.Proofs.IndexSearch
